@@ -339,6 +339,12 @@ func EpollCtl(epfd, op, fd int, ev *syscall.EpollEvent) error {
 	if v := get(fd); v != nil {
 		v.mu.Lock()
 		defer v.mu.Unlock()
+		if v.Closed && CtlAfterCloseEBADF {
+			// the descriptor was closed: the kernel answers EBADF (and has dropped the registration)
+			v.Ctl = append(v.Ctl, "X!")
+			v.Log = append(v.Log, "epoll_ctl")
+			return syscall.EBADF
+		}
 		switch op {
 		case syscall.EPOLL_CTL_ADD:
 			if v.Reg {
